@@ -30,6 +30,7 @@ import tr_oneport as TO
 import tr_sections as TSEC
 import tr_stamps as TST
 import tr_netmake as TNM
+import tr_probes as TPR
 from checks import c08, c07gen
 
 PID = 'C07'
@@ -741,8 +742,8 @@ CASES_HDR = ('Require Import LT.FieldSec LT.QcI LT.OnePort LT.OnePortNet LT.TwoP
              'Definition meq (a b : mat QcF) : bool := qc_eqb (m11 a) (m11 b) && qc_eqb (m12 a) (m12 b) && qc_eqb (m21 a) (m21 b) && qc_eqb (m22 a) (m22 b).\n')
 
 
-def cases_file(defs, items):
-    lines = [CASES_HDR] + defs
+def cases_file(defs, items, extra_hdr=''):
+    lines = [CASES_HDR + extra_hdr] + defs
     lines.append('Definition cases : list (nat * bool) := [')
     lines.append(';\n'.join('(%d%%nat, %s)' % (gi, e) for gi, e in items))
     lines.append('].\nDefinition failing := map fst (filter (fun p => negb (snd p)) cases).\nEval vm_compute in failing.\n')
@@ -826,14 +827,43 @@ def run(tier='quick', replay=None):
         if base_ok.get('TwoPortGen.v') and 'SectionsGen.v' in texts:
             w.write('SectionsGen.v', texts['SectionsGen.v'])
             stage2.append('SectionsGen.v')
+        # the netlist probes (Aparams ... twoport): specification + text-book extraction theorems, then the regenerated formulas
+        texts['C07probe.v'] = open(os.path.join(core.VERIF, 'coq', 'props', 'C07probe.v')).read()
+        w.write('C07probe.v', texts['C07probe.v'])
+        stage2.append('C07probe.v')
+        ptr = None
+        try:
+            ptr = TPR.ProbeTranslator(core.REPO).translate_all()
+            for k_, v_ in ptr.errors.items():
+                res.failed_obl.append((k_, 'lcapy/netlistopsmixin.py', v_))
+                res.obligations += 1
+        except TPR.Untranslatable as e:
+            res.failed_obl.append(('translate_probes', 'lcapy/netlistopsmixin.py', str(e)))
+            res.obligations += 1
         log('coqc stage 2')
         r1 = core.coqc_many(w.dir, stage2, timeout=600)
         for f, (ok, out, secs) in r1.items():
             base_ok[f] = ok
-            if not ok:
+            if f == 'C07probe.v':
+                res.coq_results(w.dir, {f: r1[f]}, {f: texts[f]})
+            elif not ok:
                 res.failed_obl.append((f[:-2], f, out[-800:]))
                 res.obligations += 1
+        probes_ok = False
+        if ptr is not None and base_ok.get('C07probe.v') and base_ok.get('TwoPortGen.v'):
+            texts['ProbesGen.v'] = ptr.emit_defs()
+            w.write('ProbesGen.v', texts['ProbesGen.v'])
+            rp = core.coqc_many(w.dir, ['ProbesGen.v'], timeout=300)
+            probes_ok = rp['ProbesGen.v'][0]
+            if not probes_ok:
+                res.failed_obl.append(('ProbesGen', 'ProbesGen.v', rp['ProbesGen.v'][1][-800:]))
+                res.obligations += 1
         obl_files = {}     # file -> names
+        if probes_ok:
+            for f, (names, txt) in ptr.emit_obligations().items():
+                texts[f] = txt
+                w.write(f, txt)
+                obl_files[f] = names
         if base_ok.get('C07lem.v'):
             for f in ('C07.v', 'C07simp.v', 'C07thy.v'):
                 p = os.path.join(core.VERIF, 'coq', 'props', f)
@@ -1031,7 +1061,8 @@ def run(tier='quick', replay=None):
                 P = gen_src_section(rng, s0, shunt_sources_only=(k % 3 == 2))
                 if k % 4 == 3:
                     P = ['Chain', [P, gen_src_section(rng, s0)]]
-                cases.append({'mode': 'twoport_src', 'tp': tp_to_impl(P), 's0': fs(s0), 'timeout': 50})
+                cases.append({'mode': 'twoport_src', 'tp': tp_to_impl(P), 's0': fs(s0), 'timeout': 50 if tier == 'quick' else 90,
+                              'tpmodels': ['BZ', 'AH', 'BG', 'ZY'][k % 4] if tier == 'quick' else ['BZA', 'AHG', 'BGY', 'ZYH'][k % 4]})
                 meta.append({'kind': 'twoport_src', 'tp': P, 's0': s0, 'tag': 'random'})
         # targeted: network classes whose obligation failed
         for fn_ in failed_names:
@@ -1307,6 +1338,38 @@ def run(tier='quick', replay=None):
                                 gi += 1
                     except Exception:
                         res.count('twoport_src_term_unavailable')
+                # NetlistOpsMixin.twoport(model=X) on the emitted netlist: the returned model against the text-book affine relation
+                pts = src_points('B', Btb, (vb_t, ib_t)) if Btb is not None else None
+                tterm_tb = ('(TPM (Mat (K:=QcF) %s) %s %s)' % (' '.join(q(x) for x in Btb), q(vb_t), q(ib_t))) if Btb is not None else None
+                for X, d_ in (r.get('tpmodel') or {}).items():
+                    if not isinstance(d_, dict) or 'M' not in d_:
+                        res.count('twoport_model_not_returned')
+                        continue
+                    okm = lambda x: isinstance(x, list) and all(isinstance(v, str) and v != 'zoo' for v in x)
+                    if not (okm(d_['M']) and okm(d_['src'])) or Btb is None:
+                        res.count('twoport_model_not_compared')
+                        continue
+                    res.count('twoport_model_' + X)
+                    MX = convert('B', Btb, X)
+                    if MX is not None and [F(x) for x in d_['M']] != MX:
+                        res.counterexamples.append({'key': 'NetlistOpsMixin.twoport:model-%s-matrix' % X, 'case': c, 'lcapy': d_, 'textbook': [fs(x) for x in MX],
+                                                    'shape': tp_shape(P)})
+                    if MX is not None and pts is not None:
+                        for wi in (0, 1):
+                            if not src_residual(X, MX, wi, F(d_['src'][wi]), pts):
+                                res.counterexamples.append({'key': 'NetlistOpsMixin.twoport:model-%s-source-vector' % X, 'case': c, 'lcapy': d_,
+                                                            'source': SRC_OWN[X][wi], 'textbook_B_V2b_I2b': [[fs(x) for x in Btb], fs(vb_t), fs(ib_t)],
+                                                            'found_by': 'the %s-model equations of the network do not hold with the source value returned by twoport(model=%r)' % (X, X),
+                                                            'shape': tp_shape(P)})
+                                break
+                    if probes_ok and ptr is not None and X in ptr.models and tterm_tb:
+                        for wi in (0, 1):
+                            items.append((gi, [], 'qc_eqb (tp_src_%s_%d (meas_of_Bs %s)) %s' % (X, wi + 1, tterm_tb, q(F(d_['src'][wi]))), ci))
+                            labels[gi] = ('twoport_model.%s.%s' % (X, SRC_OWN[X][wi]), ci)
+                            gi += 1
+                        items.append((gi, [], 'meq (tp_mat_%s (1%%Qc : QcF) (meas_of_Bs %s)) (Mat (K:=QcF) %s)' % (X, tterm_tb, ' '.join(q(F(x)) for x in d_['M'])), ci))
+                        labels[gi] = ('twoport_model.%s.matrix' % X, ci)
+                        gi += 1
             elif m.get('kind') == 'twoport':
                 P, s0 = m['tp'], m['s0']
                 res.count('twoport_' + P[0])
@@ -1330,6 +1393,15 @@ def run(tier='quick', replay=None):
                             if ok_ is False and not (okm(a) and okm(n_) and a != n_):
                                 res.counterexamples.append({'key': 'twoport.%s.%sparams:%s-vs-textbook' % (P[0], kd, route), 'case': c,
                                                             route: val, 'textbook_B': [fs(x) for x in B], 'shape': tp_shape(P)})
+                if probes_ok and ptr is not None and B is not None:
+                    for kd in 'ABZYHG':
+                        n_ = net.get(kd)
+                        if not (isinstance(n_, list) and all(v is not None and v != 'zoo' for v in n_)) or not (kd in ptr.probes or kd in ptr.via):
+                            continue
+                        items.append((gi, [], 'meq (probe_%s %s(meas_of_Bs (TPM (Mat (K:=QcF) %s) 0%%Qc 0%%Qc))) (Mat (K:=QcF) %s)' % (
+                            kd, '' if kd in ptr.probes else '(1%Qc : QcF) ', ' '.join(q(x) for x in B), ' '.join(q(F(x)) for x in n_)), ci))
+                        labels[gi] = ('probe.%sparams' % kd, ci)
+                        gi += 1
                 if model2 and isinstance(alg.get('B'), list) and all(v is not None and v != 'zoo' for v in alg['B']):
                     try:
                         items.append((gi, [], 'meq %s (Mat (K:=QcF) %s)' % (coq_tpB(P), ' '.join(q(F(x)) for x in alg['B'])), ci))
@@ -1366,7 +1438,8 @@ def run(tier='quick', replay=None):
                 for k in need - have:
                     mm = meta[int(k)]
                     defs.append('Definition t_%s : tree (lf QcF) := %s.' % (k, coq_tree(mm['tree'], order_params)))
-                w.write('cases_%d.v' % si, cases_file(defs, [(a, c_) for a, b_, c_, d_ in sh]))
+                w.write('cases_%d.v' % si, cases_file(defs, [(a, c_) for a, b_, c_, d_ in sh],
+                                                      'Require Import Gen.C07probe Gen.ProbesGen.\n' if probes_ok else ''))
                 fns.append('cases_%d.v' % si)
             log('coqc %d case files' % len(fns))
             cr = core.coqc_many(w.dir, fns, timeout=900)
@@ -1442,6 +1515,9 @@ def run(tier='quick', replay=None):
                     'TwoPortHModel.I2b': ['src_conv_H_B']}
         for k in by_key:
             explained.update(SRC_EXPL.get(k, []))
+            m_ = re.match(r'^NetlistOpsMixin\.twoport:model-([ABGHYZ])-source-vector$', k)
+            if m_:
+                explained.add('twoport_src_%s_sound' % m_.group(1))
             if k.startswith('ParSer.'):
                 explained.update(['leaf_guard_sound_L', 'leaf_guard_sound_C', 'leaf_guard_sound_all', 'C07_oneport_code', 'C07_code_eq_spec'])
             m_ = re.match(r'^([ABZ])Matrix\.(\w+)$', k)
